@@ -109,20 +109,21 @@ Fixpoint contiguous_any (l : list frame) : bool :=
   | f :: r => match r with [] => true | g :: _ => (fseq g =? fseq f + 1) && contiguous_any r end
   end.
 
-(* scan_tail (full sidecar): oldest first + contiguity check of the window.  A file without a single
-   line is an error (fix: it used to be reported as a complete empty tail — [empty_is_err = false]
-   keeps the old behaviour for the refutation lemma) *)
-Definition scan_tail_gen (empty_is_err : bool) (s : sfile) (max_events max_bytes : N) : sres frame :=
+(* scan_tail (full sidecar): oldest first + contiguity check of the window.  A scan that reports
+   `complete` must begin with seq 0 (fix: a zero-byte file and a file re-created by a later append
+   after the sidecar was lost used to be reported as the complete history — [strict_start = false]
+   keeps the old behaviour for the refutation lemmas) *)
+Definition starts_at_0 (fs : list frame) : bool :=
+  match fs with f :: _ => fseq f =? 0 | [] => false end.
+Definition scan_tail_gen (strict_start : bool) (s : sfile) (max_events max_bytes : N) : sres frame :=
   match s with
   | None => SAbsent
   | Some ls =>
     match scan_back max_events max_bytes ls with
     | STail fs_rev cpl =>
       let fs := rev fs_rev in
-      match fs with
-      | [] => if empty_is_err && cpl then SErr else STail fs cpl
-      | _ => if contiguous_any fs then STail fs cpl else SErr
-      end
+      if strict_start && cpl && negb (starts_at_0 fs) then SErr
+      else if contiguous_any fs then STail fs cpl else SErr
     | r => r
     end
   end.
